@@ -33,7 +33,15 @@ package route
 //     span what the real ones do to its payload (sampler key fields, rule
 //     fields, All(), MarshalMsg, JSON);
 //   - waits, after every vector, until no goroutine is runnable (a barrier,
-//     not a sleep), so that a background panic is attributed to its vector.
+//     not a sleep), so that a background panic is attributed to its vector;
+//   - runs every vector under an address-space limit of what the process holds
+//     + 3 GiB (+ 256 MiB for the 5-30-byte element-count bombs), the stand-in
+//     for a deployment's memory limit: an allocation bomb ends in the runtime's
+//     "out of memory" instead of taking the machine down. A child that has
+//     grown large, or has reported a hang, is replaced before the next vector.
+// Debugging aids: C28_LOG=<file> (one line per vector), C28_TRACE=1 (the child
+// names every concrete input on stderr), C28_EXPLORE=1 [C28_ONLY=<substring of
+// the canonical vector>] (run every vector of the graph once, print failures).
 // What counts as a failure: the child dies (crash); a panic leaves the
 // router's own handler chain (net/http would log it and drop the connection:
 // crash); a panic in the collector/sampler/transmission stand-ins (those run on
@@ -62,8 +70,8 @@ import (
 	"runtime/debug"
 	"strconv"
 	"strings"
-	"syscall"
 	"sync"
+	"syscall"
 	"testing"
 	"time"
 
@@ -184,7 +192,7 @@ type c28Result struct {
 	Caught  int    `json:"caught,omitempty"` // panics the router's own panicCatcher turned into a 500 (an answer, not a failure)
 	CaughtW string `json:"caught_why,omitempty"`
 	Recycle bool   `json:"recycle,omitempty"` // the child leaves after this answer (it holds too much memory to be a fair start for the next vector)
-	Err     string `json:"err,omitempty"`    // harness error (not a verdict)
+	Err     string `json:"err,omitempty"`     // harness error (not a verdict)
 }
 
 type c28Child struct {
